@@ -39,6 +39,15 @@ CLAIMED = {
  "C16": dict(cat="model_checking", technique="TLA+ specification as oracle (SluOrder symmetric variant: etree of Pc(A+A')Pc', Cholesky-count bound under diagonal pivoting) + SluApi/SluPipe trace validation of symmetric-mode expert-driver calls (ASan build)",
              text="TLC evaluates on the real sp_colorder output in symmetric mode, for every full-diagonal pattern up to n=3/4 and random ones, that the etree/postorder are right and the Cholesky counts dominate L under diagonal pivoting; expert-driver histories with SymmetricMode=YES, u=0, ordering 2 on diagonally dominant matrices must show perm_r = perm_c, the accuracy clauses of C07, and SlotBound on every recorded factorization.",
              note="Diagonal dominance generated by the harness; accuracy via the long-double oracle; F10 was found here and repaired (fix commit).", ref="3.3, 5 C16"),
+ "C15": dict(cat="model_checking", technique="TLA+ model (SluArgs: documented argument tables, first offender) with complete TLC enumeration of single and pairwise violations + record validation by TLC",
+             text="SluArgs transcribes the documented '-i = i-th argument' tables of eight routines; TLC enumerates every single violated precondition and every pair, the harness executes each on the real library in four precisions with the error handler replaced, and TLC checks for each record: info = -position of the first offender, handler called exactly once with that position, every argument-reachable object bit-identical, no allocation retained.",
+             note="Complete for the conditions listed in SluArgs!Pos (one representative way of violating each documented precondition).", ref="3.6, 5 C15"),
+ "C17": dict(cat="model_checking", technique="TLA+ model checking of the call-history object with a heap baseline (SluApi) + trace validation of histories executed twice with allocation tracking",
+             text="All library allocations go through the USER_MALLOC/USER_FREE seam (raw malloc/free wrapped as well); TLC enumerates legal histories ending with destroy over the full alphabet (both drivers, refactor, FACTORED, singular, query, user workspace); each sampled history is executed twice in one process and SluApiTrace requires: query/FACTORED/refactor retain nothing, destroy returns the live-block count to the baseline, thread count unchanged, no growth on repetition.",
+             note="Block counts, not bytes; file handles are never opened by these calls.", ref="3.5, 3.6, 5 C17"),
+ "C18": dict(cat="model_checking", technique="TLA+ history enumeration (SluApi: prefix;probe) + differential replay: probe after the prefix vs probe alone in a fresh process, bitwise comparison of everything returned",
+             text="TLC enumerates (prefix, probe) histories over the alphabet of C08/C14/C06; the harness runs prefix+probe in one process and the probe alone in a fresh one (one thread, built-in kernels, user workspaces sized from the library's own estimate) and compares a hash of X, info, L/U values and subscripts, permutations, rcond, pivot growth, ferr, berr.",
+             note="Same precision for prefix and probe (one precision per harness executable).", ref="3.6, 5 C18"),
 }
 NA_REASON = "check not built yet in this session (planned, see DESIGN.md section 5); not claimed"
 
